@@ -1080,12 +1080,150 @@ class _InlinePrivateGenerators(ast.NodeTransformer):
         return res
 
 
+def _selector_assigns(stmts):
+    """{name: value} when the statements are only assignments of constants / simple expressions to local names (`kind, lst = "Section",
+    self.sections`); None otherwise"""
+    out = {}
+    for st in stmts:
+        if not (isinstance(st, ast.Assign) and len(st.targets) == 1):
+            return None
+        t, v = st.targets[0], st.value
+        if isinstance(t, ast.Name) and (_simple(v) or isinstance(v, ast.Constant)):
+            out[t.id] = v
+        elif isinstance(t, ast.Tuple) and isinstance(v, ast.Tuple) and len(t.elts) == len(v.elts) \
+                and all(isinstance(e, ast.Name) for e in t.elts) and all(_simple(e) for e in v.elts):
+            for e, x in zip(t.elts, v.elts):
+                out[e.id] = x
+        else:
+            return None
+    return out or None
+
+
+def _terminates(stmts):
+    return bool(stmts) and isinstance(stmts[-1], (ast.Raise, ast.Return, ast.Continue, ast.Break))
+
+
+def _chain_branches(ifst):
+    """[(If node, body)] of an if / elif chain and its final else body (or None)"""
+    out = []
+    cur = ifst
+    while True:
+        out.append((cur, cur.body))
+        if len(cur.orelse) == 1 and isinstance(cur.orelse[0], ast.If):
+            cur = cur.orelse[0]
+            continue
+        return out, (cur.orelse or None), cur
+
+
+class _SpecialiseSelectors(ast.NodeTransformer):
+    """Tail duplication for branches that only pick constants: `if a: k, l = "S", x  elif b: k, l = "P", y  else: raise` followed by REST(k, l)
+    is `if a: ...; REST  elif b: ...; REST  else: raise`, with the string constants put in for k inside each copy.  Afterwards a local
+    dictionary display with constant keys that is only ever subscripted with constants is split into one local per key."""
+    def _rewrite_block(self, stmts):
+        for i, st in enumerate(stmts):
+            if not isinstance(st, ast.If):
+                continue
+            rest = stmts[i + 1:]
+            if not rest or len(rest) > 8:
+                continue
+            branches, final_else, last_if = _chain_branches(st)
+            sels = [(node, body, _selector_assigns(body)) for node, body in branches]
+            if any(a is None and not _terminates(body) for _, body, a in sels):
+                continue
+            if final_else is not None and not _terminates(final_else):
+                fa = _selector_assigns(final_else)
+                if fa is None:
+                    continue
+                sels.append((None, final_else, fa))
+            elif final_else is None:
+                continue          # falling through without a choice: REST would run with the old values
+            picking = [x for x in sels if x[2] is not None]
+            if len(picking) < 2:
+                continue
+            names = set(picking[0][2])
+            if any(set(a) != names for _, _, a in picking):
+                continue
+            const_names = [n for n in names if all(isinstance(a[n], ast.Constant) and isinstance(a[n].value, str) for _, _, a in picking)]
+            if not const_names:
+                continue
+            used = set(y.id for b in rest for y in ast.walk(b) if isinstance(y, ast.Name) and isinstance(y.ctx, ast.Load))
+            if not any(n in used for n in const_names):
+                continue
+            stored = set(y.id for b in rest for y in ast.walk(b) if isinstance(y, ast.Name) and isinstance(y.ctx, (ast.Store, ast.Del)))
+            if stored & names:
+                continue
+            if any(isinstance(y, (ast.FunctionDef, ast.Lambda, ast.ClassDef, ast.Yield, ast.YieldFrom)) for b in rest for y in ast.walk(b)):
+                continue
+            for node, body, a in picking:
+                sub = dict((n, a[n]) for n in const_names)
+                copy_rest = [_SubstExpr(sub).visit(copy.deepcopy(b)) for b in rest]
+                body.extend(copy_rest)
+            return stmts[:i + 1], True
+        return stmts, False
+
+    def generic_visit(self, node):
+        super().generic_visit(node)
+        for field in ("body", "orelse", "finalbody"):
+            blk = getattr(node, field, None)
+            if isinstance(blk, list) and blk and isinstance(blk[0], ast.stmt):
+                changed = True
+                n = 0
+                while changed and n < 3:
+                    blk, changed = self._rewrite_block(blk)
+                    n += 1
+                setattr(node, field, blk)
+        return node
+
+    def visit_FunctionDef(self, fn):
+        self.generic_visit(fn)
+        _split_literal_dicts(fn)
+        return fn
+
+    visit_AsyncFunctionDef = visit_FunctionDef
+
+
+def _split_literal_dicts(fn):
+    """scalar replacement: `d = {"a": x, "b": y}` whose only other uses are d["a"] / d["b"] becomes `d__a = x; d__b = y`"""
+    for st in list(ast.walk(fn)):
+        if not (isinstance(st, ast.Assign) and len(st.targets) == 1 and isinstance(st.targets[0], ast.Name) and isinstance(st.value, ast.Dict)):
+            continue
+        name = st.targets[0].id
+        keys = st.value.keys
+        if not keys or not all(isinstance(k, ast.Constant) and isinstance(k.value, str) and k.value.isidentifier() for k in keys):
+            continue
+        occ = [y for y in ast.walk(fn) if isinstance(y, ast.Name) and y.id == name]
+        subs = [y for y in ast.walk(fn) if isinstance(y, ast.Subscript) and isinstance(y.value, ast.Name) and y.value.id == name]
+        if len(occ) != len(subs) + 1 or not subs:
+            continue
+        if not all(isinstance(y.slice, ast.Constant) and y.slice.value in [k.value for k in keys] and isinstance(y.ctx, ast.Load) for y in subs):
+            continue
+        if any(a.arg == name for a in fn.args.args + fn.args.kwonlyargs):
+            continue
+
+        class R(ast.NodeTransformer):
+            def visit_Subscript(self, y):
+                self.generic_visit(y)
+                if isinstance(y.value, ast.Name) and y.value.id == name and isinstance(y.slice, ast.Constant):
+                    return ast.copy_location(ast.Name(id="%s__%s" % (name, y.slice.value), ctx=ast.Load()), y)
+                return y
+
+            def visit_Assign(self, a):
+                if a is st:
+                    return [ast.copy_location(ast.Assign(targets=[ast.Name(id="%s__%s" % (name, k.value), ctx=ast.Store())], value=self.visit(v),
+                                                         lineno=a.lineno), a) for k, v in zip(keys, a.value.values)]
+                return self.generic_visit(a)
+        R().visit(fn)
+        ast.fix_missing_locations(fn)
+
+
 def normalise(tree):
     tree = _lift_closed_local_functions(tree)
     inl = _InlinePrivateConstants(tree)
     if inl.consts:
         tree = inl.visit(tree)
     tree = _InlinePrivateGenerators(tree).visit(tree)
+    tree = _SpecialiseSelectors().visit(tree)
+    ast.fix_missing_locations(tree)
     tree = Normaliser(tree).visit(tree)
     ast.fix_missing_locations(tree)
     return tree
